@@ -3164,6 +3164,7 @@ func ruleErrFanout(c *Ctx) []Obligation {
 		obs = append(obs, ok(R, "no wholesale append of a recursive error list", "-", "the resolvers take recursive results element by element or not in a loop"))
 	}
 	obs = append(obs, errFanoutMerge(c)...)
+	obs = append(obs, errFanoutOnce(c)...)
 	return obs
 }
 
@@ -3725,4 +3726,87 @@ func pureIntArith(c *Ctx, fn *ssa.Function) bool {
 		}
 	})
 	return pure
+}
+
+// errFanoutOnce: the function through which errors are added to an entry holds a value once. The errors of a
+// grouping reach the entry that defines it (an unused grouping is checked too) and, again, every entry that uses it:
+// without this, one mistake inside k nested grouping definitions is held 2^k times (hunt/h4/C01/finding1).
+func errFanoutOnce(c *Ctx) []Obligation {
+	const R = "ERR.FANOUT"
+	con := "an entry holds an error value once: the adder skips a value that is already there"
+	entry := c.MustNamed("yang", "Entry")
+	fErrs := FieldVar(entry, "Errors")
+	// the adders: repo methods on *Entry with an error parameter that store append(e.Errors, <that parameter>)
+	var obs []Obligation
+	n := 0
+	for _, fn := range c.Funcs {
+		if !c.isRepoFn(fn) || fn.Parent() != nil || fn.Signature.Recv() == nil || len(fn.Params) != 2 || !isErrorType(fn.Params[1].Type()) {
+			continue
+		}
+		var app *ssa.Store
+		for _, st := range storesToField(fn, fErrs) {
+			fromParam := false
+			operandClosure(st.Val, func(x ssa.Value) {
+				if x == ssa.Value(fn.Params[1]) {
+					fromParam = true
+				}
+			})
+			if fromParam {
+				app = st
+			}
+		}
+		if app == nil {
+			continue
+		}
+		n++
+		// a comparison of an element of e.Errors with the parameter whose equal branch leaves without appending
+		skips := false
+		eachInstr(fn, func(in ssa.Instruction) {
+			bo, isB := in.(*ssa.BinOp)
+			if !isB || bo.Op != token.EQL && bo.Op != token.NEQ || skips {
+				return
+			}
+			var other ssa.Value
+			switch {
+			case bo.X == ssa.Value(fn.Params[1]):
+				other = bo.Y
+			case bo.Y == ssa.Value(fn.Params[1]):
+				other = bo.X
+			default:
+				return
+			}
+			elem := false
+			operandClosure(other, func(x ssa.Value) {
+				if _, f, _ := loadedField(x); f == fErrs {
+					elem = true
+				}
+			})
+			if !elem {
+				return
+			}
+			for _, r := range refsOf(bo) {
+				ifi, isIf := r.(*ssa.If)
+				if !isIf {
+					continue
+				}
+				eq := ifi.Block().Succs[0]
+				if bo.Op == token.NEQ {
+					eq = ifi.Block().Succs[1]
+				}
+				if eq != app.Block() && !blockReaches(eq, app.Block(), nil) {
+					skips = true
+				}
+			}
+		})
+		c2 := fmt.Sprintf("%s (%s)", con, c.FnName(fn))
+		if skips {
+			obs = append(obs, ok(R, c2, c.InstrPos(app), "the list is scanned for the value; a hit leaves without appending"))
+		} else {
+			obs = append(obs, bad(R, c2, c.InstrPos(app), "every call appends: the errors of a grouping are imported where it is defined and come again with each use, so one mistake inside k nested grouping definitions is held 2^k times — a 1.6 kB module passes 1 GiB in seconds, for one error in the result"))
+		}
+	}
+	if n == 0 {
+		obs = append(obs, undecided(R, con, "-", "no method adds an error parameter to Entry.Errors"))
+	}
+	return obs
 }
